@@ -60,6 +60,24 @@ def _shallow_source(f, l, depth=0):
     return ("other", rv["k"])
 
 
+def _root_local(f, l, depth=0):
+    """The local a reference/copy chain starts from (`_p = move _t; _t = &(*_1)` -> _1)."""
+    du = defuse(f)
+    ds = [s for s, whole in du.defs.get(l, []) if whole]
+    if len(ds) != 1 or depth > 8 or ds[0].is_term:
+        return l
+    rv = ds[0].node["rv"]
+    if rv["k"] in ("use", "cast"):
+        p = op_place(rv["op"])
+        if p is not None and all(e == "deref" for e in p.get("p", [])):
+            return _root_local(f, p["l"], depth + 1)
+    elif rv["k"] == "ref":
+        p = rv["pl"]
+        if all(e == "deref" for e in p.get("p", [])):
+            return _root_local(f, p["l"], depth + 1)
+    return l
+
+
 def _extent_locals(f):
     return [i for i, l in enumerate(f.locals) if l["ty"] == EXTENT]
 
@@ -198,13 +216,18 @@ def merge_linear(fx):
 
 def map_forwards(fx):
     import p_gate
+    import views
     obs = list(p_gate.extents_forwarded(fx))
-    f = fx.fn(MAP)
-    if f is None:
+    if fx.fn(MAP) is None:
         return obs
+    # the functions below map_extents that build an Extent (map_extents itself, or a From impl it maps with)
+    cg = q.callgraph(fx)
+    builders = [MAP] + sorted(x for x in cg.reach(MAP) if x in fx.fns and fx.fns[x].crate == "libfs" and x != MAP)
     k = 0
-    for bi, b in enumerate(f.blocks):
-        if b.get("cleanup"):
+    for bp in builders:
+      f = views.view(fx, bp, depth=4)
+      for bi, b in enumerate(f.blocks):
+        if b.get("cleanup") or b.get("origin", bp) != bp:
             continue
         for s in b["stmts"]:
             rv = s["rv"]
@@ -218,7 +241,7 @@ def map_forwards(fx):
                     else:
                         ok = src[0] == "bin" and src[1] in ("Add", "AddWithOverflow") and \
                             sorted(x[2] for x in src[2] if x[0] == "field") == ["fe_length", "fe_logical"] and \
-                            len(set(x[1] for x in src[2] if x[0] == "field")) == 1
+                            len(set(_root_local(f, x[1]) for x in src[2] if x[0] == "field")) == 1
                     obs.append(Ob("R-TABLE", mkkey("R-TABLE", MAP, "Extent." + fname, k, "kernel-fields"), ok,
                                   "%s:%d" % (s["span"]["file"], s["span"]["line"]), MAP,
                                   "reported range `%s` is %s" % (fname, "fe_logical" if (ok and fname == "start") else
@@ -231,8 +254,9 @@ def map_forwards(fx):
 
 
 def segments_from_seek(fx):
+    import views
     obs = []
-    f = fx.fn(NSS)
+    f = views.view(fx, NSS, depth=4, extra_stop=("libfs::linux::lseek",)) if fx.fn(NSS) is not None else None
     if f is None:
         return [anchor_ob("R-TABLE", NSS)]
     LSEEK = "libfs::linux::lseek"
